@@ -865,6 +865,13 @@ class _Ctx:
         if isinstance(v, ast.Call) and isinstance(v.func, ast.Name) and v.func.id == "next" and len(v.args) == 2 and not v.keywords:
             src = self._deref(v.args[0])
             if isinstance(src, ast.GeneratorExp) and len(src.generators) == 1 and not src.generators[0].is_async:
+                it = src.generators[0].iter
+                if isinstance(it, (ast.Tuple, ast.List)):
+                    return None     # a search through a display is read as a value (case by case), not as a loop
+                if isinstance(it, ast.Name) and self.fn is not None:
+                    tgt = self.model.lookup_symbol(self.fn.module, it.id)
+                    if isinstance(tgt, tuple) and tgt[0] == "const" and isinstance(tgt[1], (ast.Tuple, ast.List)):
+                        return None
                 return src, v.args[1]
             if self._is_pipeline(src):
                 return src, v.args[1]
